@@ -33,6 +33,17 @@ CLAIMED.update({
              text="TLC checks on small models that every internal cell was split exactly once, by the rule, at the pulled leaf, and T-HOO's depth bound; conformance requires each round of real runs to contain exactly the expansion Grows predicts (none, or the pulled cell if it was a leaf at the pull and the rule held), inside receive_reward only, with fresh children.",
              note="Thresholds from the 60-digit tables; VHCT per-cell thresholds as observed.", ref="5/C06"),
 })
+CLAIMED.update({
+ "C07": dict(technique="TLA+ specs SOOFamily / SequOOL / GPO / POO (recommendation sets) model-checked with TLC + TLC trace validation of get_last_point against the specification's ledger of evaluated cells",
+             text="The specifications define the admissible recommendations (best evaluated cell; deepest-level cell of maximal exact mean; best validated point; best-scoring learner) over their own state, in which evaluation is recorded independently of the library's reward fields; TLC validates every get_last_point of real runs - issued after the loop and at intermediate rounds, on all-negative, all-equal and tied grid histories - against those sets, and model-checks that they are well defined on all reachable states of the small models.",
+             note="StroquOOL's candidate rule is not covered yet.  Grid rewards; comparisons exact (integers / cross-multiplied rationals).", ref="5/C07"),
+ "C08": dict(technique="TLA+ spec SOOFamily.tla (sweep as micro-steps with cursor <<h, vmax>>) model-checked with TLC + replay of all enumerated behaviours + TLC trace validation of every expansion / hand-out of real SOO, StoSOO, DOO runs",
+             text="TLC explores the micro-step model (begin / expand / hand out / receive) for K in {2,3}, depth caps and k, all reward sequences incl. ties and negatives, with evaluation caps, expand-only-evaluated, depth cap, no-stuck and the expansion rule as (action) invariants; the implementation is run on every enumerated reward sequence and must literally produce one of the enumerated behaviours; Trace_SOO validates each make_children and each handed-out cell of larger real runs against Point() at the sweep cursor, StoSOO's b formula to 5 units of 2^-13 and DOO's b - reward as a function of depth.",
+             note="Note: PyXAB's SOO restarts its sweep at every pull, so the per-sweep threshold vmax never binds there; the spec states the rule and it holds vacuously.  DOO's default delta is only checked to be one function of the depth.", ref="5/C08"),
+ "C12": dict(technique="TLA+ spec SequOOL.tla model-checked with TLC (budgets, order, exhaustion) + literal replay of enumerated behaviours + TLC trace validation of real runs",
+             text="Purely order-based, hence exact: TLC explores all reward sequences and tie-breaks for hmax in 1..4 with the per-depth budgets, open-best, child-order and frozen-recommendation properties; implementation runs for every enumerated reward sequence must literally be enumerated behaviours; Trace_Seq validates each opening and each handed-out child of runs with n up to 1000 on all partitions.",
+             note="hmax = floor(n/H_n) computed with exact rationals.", ref="5/C12"),
+})
 NA_REASON = {
  "C17": "upper bounds of transcendental real functions over a continuum: an enclosure argument; TLA+/TLC has no reals or transcendental functions (DESIGN.md 5/C17)",
 }
